@@ -109,7 +109,10 @@ def judge_fs(d, fname, before, after, root, data, exc, rec, dry, writer_kind, al
         if exc is not None:
             problems.append(('dry-run-raised|%s' % type(exc).__name__, repr(exc)))
         return problems
-    if exc is not None and not isinstance(exc, error.PySmiWriterError):
+    # the property speaks of a single failing step; a second fault placed on the clean-up itself (unlink, or access()
+    # lying about the temporary file) cannot be cleaned up after: only the destination content is judged then
+    cleanup_fault = any(s in ('os.unlink', 'os.access') for _, s, f in rec.injected)
+    if exc is not None and not isinstance(exc, error.PySmiWriterError) and not cleanup_fault:
         problems.append(('foreign-exception|%s|%s' % (type(exc).__name__, faults), repr(exc)))
     allowed = [old, new] + [a.encode('utf-8') for a in alt_data]
     compile_fault = any(s == 'py_compile.compile' for _, s, f in rec.injected)
@@ -123,7 +126,7 @@ def judge_fs(d, fname, before, after, root, data, exc, rec, dry, writer_kind, al
         problems.append(('returned-normally-without-the-new-content|%s' % faults,
                          'destination holds %r (%d bytes), new data %d bytes' % ((content or b'')[:40], len(content or b''), len(new))))
     # nothing else left behind in the destination directory
-    for k in sorted(after or {}):
+    for k in sorted(after or {}) if not cleanup_fault else ():
         if os.path.normpath(os.path.dirname(k.rstrip('/'))) == os.path.normpath(rel) and '__pycache__' not in k \
                 and os.path.normpath(k.rstrip('/')) != key:
             problems.append(('stray-entry-left-behind|%s' % faults, 'entry %s in %s' % (k, sorted(after))))
